@@ -416,13 +416,41 @@ fn check_read(ctx: &Ctx, scratch: &Path, c: &ReadCase) -> Check {
 }
 
 pub fn run(ctx: &Ctx) {
-    ctx.set_rule("write side: pairs (old, new) of layer environments (0..9 entries; scopes all/build/launch/process p; five behaviours; names = non-empty byte strings without '/' and NUL, weighted to dots, '.x', 'x.', 'A.append', '..', non-UTF-8, spaces, '=', up to 48 bytes; values = arbitrary bytes incl. empty, NUL, newlines, 200 bytes) written successively into one layer directory holding canary content (exec.d/p, data/, env.txt, envoy/, env.launchx, a symlink). Oracle: regular files under env, env.build, env.launch = exactly the spec rendering of `new`; canary snapshot identical; read-back == written value; apply equals the reference for scopes all/build/launch/each process/unknown process x starting envs. read side: spec-shaped directories built by the harness (NAME, NAME.<known>, NAME.<unknown suffix>, directories inside env dirs, per-process directories) read through read_from_layer_dir and compared with a reference reader (last-dot rule; suffix-less => override; unknown/non-UTF-8 suffix => ignored) + reference apply. Non-trivial (write): pair differs, old has a file new lacks, and new uses >=2 scopes or a dotted/non-UTF-8 name or a process scope; (read): case has an unknown-suffix or suffix-less file plus a per-process or nested directory; distinct = hash of the case.");
+    ctx.set_rule("write side: pairs (old, new) of layer environments (0..9 entries; scopes all/build/launch/process p; five behaviours; names = non-empty byte strings without '/' and NUL, weighted to dots, '.x', 'x.', 'A.append', '..', non-UTF-8, spaces, '=', up to 48 bytes; values = arbitrary bytes incl. empty, NUL, newlines, 200 bytes) (independent, or neighbours: one scope emptied / one process type dropped / one entry dropped / one value changed) written successively into one layer directory holding canary content (exec.d/p, data/, env.txt, envoy/, env.launchx, a symlink). Oracle: regular files under env, env.build, env.launch = exactly the spec rendering of `new`; canary snapshot identical; read-back == written value; apply equals the reference for scopes all/build/launch/each process/unknown process x starting envs. read side: spec-shaped directories built by the harness (NAME, NAME.<known>, NAME.<unknown suffix>, directories inside env dirs, per-process directories) read through read_from_layer_dir and compared with a reference reader (last-dot rule; suffix-less => override; unknown/non-UTF-8 suffix => ignored) + reference apply. Non-trivial (write): pair differs, old has a file new lacks, and new uses >=2 scopes or a dotted/non-UTF-8 name or a process scope; (read): case has an unknown-suffix or suffix-less file plus a per-process or nested directory; distinct = hash of the case.");
     ctx.assume("process names are valid ProcessType strings other than '.' and '..' whose last dot-suffix is not a behaviour word; a suffix-less NAME and NAME.override are never placed in the same directory");
     let scratch = Scratch::new("c03");
     for (_p, v) in ctx.regress_files() {
         replay(ctx, v["sub"].as_str().unwrap_or("write"), &v["case"]);
     }
-    let wstrat = (entries_strategy(9), entries_strategy(9), proptest::collection::vec(env0_strategy(), 1..4)).prop_map(|(old, new, env0s)| WriteCase { old, new, env0s });
+    // half of the pairs are independent, the other half are NEIGHBOURS: `new` is `old` with one scope emptied, one
+    // process type dropped, one entry dropped or one value changed — everything else stays byte-identical
+    let wstrat = (entries_strategy(9), entries_strategy(9), proptest::collection::vec(env0_strategy(), 1..4), 0u8..8, any::<u16>()).prop_map(|(old, new, env0s, mode, idx)| {
+        let new = match mode {
+            4 if !old.is_empty() => {
+                let victim = old[pick_idx(idx, old.len())].scope.clone();
+                old.iter().filter(|e| e.scope != victim).cloned().collect()
+            }
+            5 => {
+                let procs: Vec<Sc> = old.iter().filter(|e| matches!(e.scope, Sc::Process(_))).map(|e| e.scope.clone()).collect();
+                if procs.is_empty() { new } else {
+                    let victim = procs[pick_idx(idx, procs.len())].clone();
+                    old.iter().filter(|e| e.scope != victim).cloned().collect()
+                }
+            }
+            6 if !old.is_empty() => {
+                let k = pick_idx(idx, old.len());
+                old.iter().enumerate().filter(|(i, _)| *i != k).map(|(_, e)| e.clone()).collect()
+            }
+            7 if !old.is_empty() => {
+                let k = pick_idx(idx, old.len());
+                let mut n = old.clone();
+                n[k].value.push(b'!');
+                n
+            }
+            _ => new,
+        };
+        WriteCase { old, new, env0s }
+    });
     ctx.run_prop("write", wstrat, ctx.tier.pick(2500, 50_000), write_case_json, |c| {
         if write_nontrivial(c) {
             ctx.class("write:nontrivial");
